@@ -162,7 +162,8 @@ LEVEL_TEXT["C09"] = {
 
 PROPS["C07"] = {
     "targets": [vt("props/C07_condvar_vt.cpp", 15000, 60, 150000, 600),
-                vt("props/C07_stop_vt.cpp", 6000, 40, 100000, 600, shards=6)],
+                vt("props/C07_stop_vt.cpp", 6000, 40, 100000, 600, shards=6),
+                vt("props/C07_permits_vt.cpp", 6000, 40, 100000, 600, shards=6)],
     "rule": "case = 1..3 waiters x 1..3 generations published by a notifier (notify_all, or notify_one when at most one waiter can be waiting; "
             "inside or after the user lock) x per waiter 1..2 waits in {wait(l,pred), wait_for(l,inf,pred), wait_until(l,finite,pred), "
             "wait_until(l,inf) loop, wait(l,stop_token,pred) with a generated request_stop point, wait(l) loop} on condition_variable_any over "
@@ -173,7 +174,10 @@ PROPS["C07"] = {
             "generations, every source stopped exactly once at a generated point by the notifier or a separate stopper thread; oracle: return "
             "value == pred(), false only if the own token was stopped (or the harness clock let the deadline pass), lock owned, and any "
             "all-blocked state is a missed stop request; non-trivial iff a wait was released by a stop request only while another source was "
-            "stopped during some wait",
+            "stopped during some wait. Third target (permits): 2..4 waiters of mixed kinds {wait(pred), wait_for(finite,pred), wait_until(finite) loop, "
+            "wait_for(inf,pred)} use the cv as a permit counter; the notifier publishes one permit per waiter (+0..1) one at a time with notify_one; "
+            "oracle: a waiter gives up only if the harness clock let its deadline pass, permits are conserved, an all-blocked state with a permit "
+            "available is a lost notification; non-trivial iff >=2 waiters blocked and a deadline fired",
     "floor": {"quick": 200, "thorough": 2000},
     "assumptions": ["SC interleavings at hook/agent/user-lock granularity", "spurious wake-ups are allowed; only condition_variable_any runs without the runtime (pika::condition_variable + pika::mutex is covered through C01/C02 programs)"],
 }
